@@ -127,8 +127,13 @@ func VerifC16_Join(cf, kekAS, kekNS int) {
 	badMIC := verifNondetBool("corruptMIC")
 	carried := mic
 	if badMIC {
-		carried = verifNondet4("carriedMIC")
-		verifAssume(carried != mic)
+		// a wrong MIC is stated relative to the right one (right xor d, d != 0: every wrong value), so that a
+		// counterexample keeps its meaning in the native replay where CMAC is the real function
+		d4 := verifNondet4("carriedMICxorSpec")
+		verifAssume(d4 != [4]byte{})
+		for i := range carried {
+			carried[i] = mic[i] ^ d4[i]
+		}
 	}
 	phy := append(msg, carried[:]...)
 	req := backend.JoinReqPayload{
